@@ -34,6 +34,10 @@ type MapSpec struct {
 
 	KeySpec, ValueSpec TypeSpec
 	Annotations        Annotations
+
+	// linkScope is the scope the map is being linked in; set only while
+	// Link is in progress (see pendingType).
+	linkScope Scope
 }
 
 // compileMapType compiles the given MapType AST into a MapSpec.
@@ -66,6 +70,9 @@ func (m *MapSpec) Link(scope Scope) (TypeSpec, error) {
 		return m, nil
 	}
 
+	m.linkScope = scope
+	defer func() { m.linkScope = nil }()
+
 	var err error
 	m.KeySpec, err = m.KeySpec.Link(scope)
 	if err != nil {
@@ -78,6 +85,18 @@ func (m *MapSpec) Link(scope Scope) (TypeSpec, error) {
 	}
 
 	return m, nil
+}
+
+// pendingType returns the type a container holds. A container reached again
+// through a reference cycle while it is still being linked still names that
+// type; the name is resolved in the scope the container is being linked in.
+func pendingType(t TypeSpec, linkScope Scope) TypeSpec {
+	if ref, ok := t.(typeSpecReference); ok && linkScope != nil {
+		if target, err := ref.Link(linkScope); err == nil {
+			return target
+		}
+	}
+	return t
 }
 
 // ThriftName for MapSpec
@@ -114,6 +133,9 @@ type ListSpec struct {
 
 	ValueSpec   TypeSpec
 	Annotations Annotations
+
+	// linkScope is set only while Link is in progress (see pendingType).
+	linkScope Scope
 }
 
 // compileListSpec compiles the given ListType AST into a ListSpec.
@@ -139,6 +161,9 @@ func (l *ListSpec) Link(scope Scope) (TypeSpec, error) {
 	if l.linked() {
 		return l, nil
 	}
+
+	l.linkScope = scope
+	defer func() { l.linkScope = nil }()
 
 	var err error
 	l.ValueSpec, err = l.ValueSpec.Link(scope)
@@ -174,6 +199,9 @@ type SetSpec struct {
 
 	ValueSpec   TypeSpec
 	Annotations Annotations
+
+	// linkScope is set only while Link is in progress (see pendingType).
+	linkScope Scope
 }
 
 // compileSetSpec compiles the given SetType AST into a SetSpec.
@@ -199,6 +227,9 @@ func (s *SetSpec) Link(scope Scope) (TypeSpec, error) {
 	if s.linked() {
 		return s, nil
 	}
+
+	s.linkScope = scope
+	defer func() { s.linkScope = nil }()
 
 	var err error
 	s.ValueSpec, err = s.ValueSpec.Link(scope)
